@@ -422,6 +422,37 @@ def havoc_target(ex, m, cx, st, pre_heap):
             key = st.heap.field_key(decl[0], decl[1])
             st.heap.set(key, [z3.Const(fresh_name('fld'), a.sort()) for a in st.heap.get(key)])
             return
+        if kind == 'owned':
+            # owned(pkg.Class.field, conn): that field of the objects whose .connection is conn (pre-state)
+            fq = ast.unparse(e.args[0])
+            clsq, fname = fq.rsplit('.', 1)
+            decl = ex.W.field_decl(ex.W.cls_by_name(clsq), fname)
+            owner = ex.S.eval(e.args[1], cx)
+            key = st.heap.field_key(decl[0], decl[1])
+            cdecl = ex.W.field_decl(ex.W.cls_by_name('core.wl.object.ObjectBase'), 'connection')
+            conn_arr = pre_heap.get(pre_heap.field_key(cdecl[0], cdecl[1]))[0]
+            new = []
+            r = z3.Int(fresh_name('r'))
+            for a in st.heap.get(key):
+                na = z3.Const(fresh_name('own'), a.sort())
+                st.pc.append(z3.ForAll([r], z3.Implies(z3.Select(conn_arr, r) != owner.term, z3.Select(na, r) == z3.Select(a, r)), patterns=[z3.Select(na, r)]))
+                new.append(na)
+            st.heap.set(key, new)
+            return
+        if kind == 'lists_of':
+            # the lists that are values of the dict (pre-state): their length and elements may change
+            d = ex.S.eval(e.args[0], cx)
+            has = z3.Select(pre_heap.get(pre_heap.dict_has_key(d.ty.k))[0], d.term)
+            val = z3.Select(pre_heap.get(pre_heap.dict_val_keys(d.ty.k, d.ty.v)[0])[0], d.term)
+            sk = z3.Function(fresh_name('owner_key'), I, d.ty.k.comps()[0])
+            r = z3.Int(fresh_name('r'))
+            inrange = z3.And(z3.Select(has, sk(r)), z3.Select(val, sk(r)) == r)
+            for key in [st.heap.list_len_key()] + st.heap.list_arr_keys(d.ty.v.elem):
+                a = st.heap.get(key)[0]
+                na = z3.Const(fresh_name('lof'), a.sort())
+                st.pc.append(z3.ForAll([r], z3.Or(inrange, z3.Select(na, r) == z3.Select(a, r)), patterns=[z3.Select(na, r)]))
+                st.heap.set(key, [na])
+            return
         target = ex.S.eval(e.args[0], cx)
         ref = target.term
         if kind == 'list':
